@@ -1,6 +1,7 @@
 package olareg
 
 import (
+	"context"
 	"encoding/base64"
 	"encoding/json"
 	"errors"
@@ -325,7 +326,7 @@ func (s *Server) blobUploadPost(repoStr string) http.HandlerFunc {
 				s.log.Debug("failed to verify blob digest", "repo", repoStr, "digest", d.String(), "err", err)
 				return
 			}
-			err = bc.Close()
+			err = s.blobClose(r.Context(), repoStr, bc)
 			if err != nil {
 				w.WriteHeader(http.StatusInternalServerError)
 				s.log.Info("failed to close blob", "repo", repoStr, "err", err)
@@ -409,7 +410,7 @@ func (s *Server) blobUploadMount(repoSrcStr, repoTgtStr, digStr string, w http.R
 	if err != nil {
 		return errors.Join(err, bc.Cancel(), rdr.Close())
 	}
-	err = errors.Join(rdr.Close(), bc.Close())
+	err = errors.Join(rdr.Close(), s.blobClose(r.Context(), repoTgtStr, bc))
 	if err != nil {
 		// a failed close does not remove the session
 		return errors.Join(err, bc.Cancel())
@@ -422,6 +423,17 @@ func (s *Server) blobUploadMount(repoSrcStr, repoTgtStr, digStr string, w http.R
 	w.Header().Set("location", loc)
 	w.WriteHeader(http.StatusCreated)
 	return nil
+}
+
+// blobClose completes an upload.
+// The repo is held meanwhile, a GC that is running on it is waited for by RepoGet, which returns when the request is cancelled.
+func (s *Server) blobClose(ctx context.Context, repoStr string, bc store.BlobCreator) error {
+	repo, err := s.store.RepoGet(ctx, repoStr)
+	if err != nil {
+		return err
+	}
+	defer repo.Done()
+	return bc.Close()
 }
 
 func (s *Server) blobUploadPatch(repoStr, sessionID string) http.HandlerFunc {
@@ -624,7 +636,7 @@ func (s *Server) blobUploadPut(repoStr, sessionID string) http.HandlerFunc {
 			_ = types.ErrRespJSON(w, types.ErrInfoBlobUploadInvalid("invalid digest, expected: "+bc.Digest().String()))
 			return
 		}
-		err = bc.Close()
+		err = s.blobClose(r.Context(), repoStr, bc)
 		if err != nil {
 			// a failed close does not remove the session
 			if errCancel := bc.Cancel(); errCancel != nil {
